@@ -4,6 +4,7 @@ use crate::*;
 use crate::header::DBC_MAGIC;
 use std::io::Cursor;
 use std::io::Write;
+use std::io::Read;
 
 pub fn stub_format(_args: core::fmt::Arguments<'_>) -> String {
     String::new()
@@ -229,3 +230,68 @@ fn u17_6_value_codec_small() {
     let e: f32 = kani::any();
     assert!(matches!(*write_then_parse(&*core::mem::ManuallyDrop::new(Value::Float32(e)), FieldType::Float32, 4), Value::Float32(x) if x.to_bits() == e.to_bits()), "Float32 bits survive");
 }
+
+// ------------------------------------------------------------------------------------ U17.7 record addressing / array fields
+/// stand-in for `self` in the record-position statement of LazyDbcParser::get_record (reads self.header only)
+pub struct HdrRef<'a> { pub header: &'a DbcHeader }
+/// stand-in for `self` in the per-field statement of DbcParser::parse_record_with_schema: parse_field_value delegates to
+/// crate::field_parser::parse_field_value exactly like the real method
+pub struct PfvProxy;
+impl PfvProxy {
+    fn parse_field_value(&self, cursor: &mut Cursor<&[u8]>, t: FieldType) -> Result<Value> { crate::field_parser::parse_field_value(cursor, t) }
+}
+
+// every access path addresses record i at 20 + i * record_size (64-bit, no overflow) - the lazy and the parallel path
+// @harness unit=U17.7 props=C17 kind=complete timeout=120 target="lazy.rs: LazyDbcParser::get_record position statement; parallel.rs: parse_records_parallel position statement (E11 blocks)" oracle=dbc_header
+#[kani::proof]
+#[kani::unwind(4)]
+#[kani::stub(alloc::fmt::format, stub_format)]
+fn u17_7_record_position_law() {
+    let h = DbcHeader { magic: DBC_MAGIC, record_count: kani::any(), field_count: kani::any(), record_size: kani::any(), string_block_size: kani::any() };
+    let i: u32 = kani::any();
+    let want = 20u64 + (i as u64) * (h.record_size as u64);
+    assert!(blk_lazy_record_pos(&HdrRef { header: &h }, i) == want, "lazy path: record i starts at 20 + i * record_size");
+    assert!(blk_parallel_record_pos(&h, i as usize) == want, "parallel path: record i starts at 20 + i * record_size");
+}
+
+// an array field of n elements of any width is decoded as n consecutive elements of that width, in order
+fn array_field_decode(t: FieldType, w: usize) {
+    let bytes: [u8; 8] = kani::any();
+    let field = core::mem::ManuallyDrop::new(SchemaField { name: String::new(), field_type: t, is_array: true, array_size: Some(2) });
+    let mut c = Cursor::new(&bytes[..]);
+    let v = match blk_parse_field_or_array(&PfvProxy, &mut c, &field) {
+        Ok(v) => core::mem::ManuallyDrop::new(v),
+        Err(e) => { core::mem::forget(e); assert!(false, "8 bytes hold two elements of any width"); return; }
+    };
+    assert!(c.position() as usize == 2 * w, "the array consumes n * width bytes");
+    match &*v {
+        Value::Array(items) => {
+            assert!(items.len() == 2, "both elements are decoded");
+            let ok0 = match (&items[0], w) { (Value::UInt8(x), 1) => *x == bytes[0], (Value::UInt16(x), 2) => *x == u16::from_le_bytes([bytes[0], bytes[1]]),
+                (Value::UInt32(x), 4) => *x == u32::from_le_bytes([bytes[0], bytes[1], bytes[2], bytes[3]]), _ => false };
+            let ok1 = match (&items[1], w) { (Value::UInt8(x), 1) => *x == bytes[1], (Value::UInt16(x), 2) => *x == u16::from_le_bytes([bytes[2], bytes[3]]),
+                (Value::UInt32(x), 4) => *x == u32::from_le_bytes([bytes[4], bytes[5], bytes[6], bytes[7]]), _ => false };
+            assert!(ok0 && ok1, "element k is the k-th little-endian word of the element width");
+        }
+        _ => assert!(false, "an array field yields Value::Array"),
+    }
+}
+
+// one harness per element width (a symbolic element type exhausts the time limit)
+// @harness unit=U17.7 props=C17 kind=bounded bound="array of 2 u8 elements; every byte value" timeout=600 target="parser.rs: DbcParser::parse_record_with_schema per-field statement (E11 block)" oracle=dbc_writer
+#[kani::proof]
+#[kani::unwind(8)]
+#[kani::stub(alloc::fmt::format, stub_format)]
+fn u17_7_array_field_decode_u8() { array_field_decode(FieldType::UInt8, 1); }
+
+// @harness unit=U17.7 props=C17 kind=bounded bound="array of 2 u16 elements; every byte value" timeout=600 target="parser.rs: DbcParser::parse_record_with_schema per-field statement (E11 block)" oracle=dbc_writer
+#[kani::proof]
+#[kani::unwind(8)]
+#[kani::stub(alloc::fmt::format, stub_format)]
+fn u17_7_array_field_decode_u16() { array_field_decode(FieldType::UInt16, 2); }
+
+// @harness unit=U17.7 props=C17 kind=bounded bound="array of 2 u32 elements; every byte value" timeout=600 target="parser.rs: DbcParser::parse_record_with_schema per-field statement (E11 block)" oracle=dbc_writer
+#[kani::proof]
+#[kani::unwind(8)]
+#[kani::stub(alloc::fmt::format, stub_format)]
+fn u17_7_array_field_decode_u32() { array_field_decode(FieldType::UInt32, 4); }
